@@ -248,6 +248,13 @@ func New(cfg Config) *Fixture {
 		if err := f.cm.UpdateClusterHosts(vc.Name, hosts); err != nil {
 			panic(fmt.Sprintf("px: hosts of %s: %v", c.Name, err))
 		}
+		// health flags are kept per address across host updates: a recycled address must start healthy
+		if snap := f.cm.GetClusterSnapshot(context.Background(), vc.Name); snap != nil {
+			snap.HostSet().Range(func(h types.Host) bool {
+				h.ClearHealthFlag(api.FAILED_ACTIVE_HC)
+				return true
+			})
+		}
 	}
 
 	// router
@@ -670,4 +677,17 @@ func (ex *Exchange) Terminate(code int) bool {
 		return false
 	}
 	return h.TerminateStream(code)
+}
+
+// HostsDown marks every host of a logical cluster unhealthy (health flags live on the host objects, so the snapshot a
+// running request captured at route time sees it too): later host selections fail with "no healthy upstream".
+func (f *Fixture) HostsDown(logical string) {
+	snap := f.Snapshot(logical)
+	if snap == nil {
+		return
+	}
+	snap.HostSet().Range(func(h types.Host) bool {
+		h.SetHealthFlag(api.FAILED_ACTIVE_HC)
+		return true
+	})
 }
